@@ -1038,4 +1038,119 @@ theorem getCommentEnd_le (post sep term : List Char) (isLast : Bool) (n : Nat) (
       · simp at h; omega
 
 
+/-! ## A comment with text has a non-empty payload -/
+
+theorem isText_not_ws {c : Char} (h : isText c = true) : isWs c = false ∧ c ≠ '*' ∧ c ≠ '/' ∧ c ≠ '!' := by
+  simp [isText] at h
+  exact ⟨h.1.1.1, h.1.1.2, h.1.2, h.2⟩
+
+/-- A text character is never skipped by `CommentReducer`, whatever state it is met in. -/
+theorem reduce_yields_text (blk : Bool) : ∀ (s : List Char) (st : RState) (c : Char),
+    c ∈ s → isText c = true → reduce blk st s ≠ []
+  | [], _, _, h, _ => by simp at h
+  | x :: rest, st, c, hm, ht => by
+    rcases List.mem_cons.mp hm with rfl | hm
+    · obtain ⟨hw, hs, _, _⟩ := isText_not_ws ht
+      have hn : c ≠ '\n' := fun e => by rw [e, isWs_nl] at hw; exact absurd hw (by decide)
+      cases st <;> simp [reduce, hw, hs, hn]
+    · have ih := fun st' => reduce_yields_text blk rest st' c hm ht
+      cases st <;> simp only [reduce] <;> (repeat' split) <;> first | exact ih _ | simp
+
+theorem stripBlock3 (x : Char) (hx : x.utf8Size = 1) (rest : List Char) :
+    stripBlock? 3 ('/' :: '*' :: x :: (rest ++ ['*', '/'])) = some rest := by
+  have e : ('/' :: '*' :: x :: (rest ++ ['*', '/'])) = ('/' :: '*' :: x :: rest) ++ ['*', '/'] := by simp
+  have hlen : utf8Len ('/' :: '*' :: x :: (rest ++ ['*', '/'])) = utf8Len ('/' :: '*' :: x :: rest) + 2 := by
+    rw [e, utf8Len_append]
+    have : utf8Len ['*', '/'] = 2 := by decide
+    omega
+  have htake := takeBytes_prefix ('/' :: '*' :: x :: rest) ['*', '/']
+  rw [← e] at htake
+  have hge : 3 ≤ utf8Len ('/' :: '*' :: x :: rest) := by
+    have h1 : Char.utf8Size '/' = 1 := by decide
+    have h2 : Char.utf8Size '*' = 1 := by decide
+    simp [utf8Len, h1, h2, hx]; omega
+  simp only [stripBlock?, hlen]
+  have : ¬ (utf8Len ('/' :: '*' :: x :: rest) + 2 < 3 + 2) := by omega
+  simp [this, htake]
+
+theorem stripBlock2 (body : List Char) :
+    stripBlock? 2 ('/' :: '*' :: (body ++ ['*', '/'])) = some body := by
+  have e : ('/' :: '*' :: (body ++ ['*', '/'])) = ('/' :: '*' :: body) ++ ['*', '/'] := by simp
+  have hlen : utf8Len ('/' :: '*' :: (body ++ ['*', '/'])) = utf8Len ('/' :: '*' :: body) + 2 := by
+    rw [e, utf8Len_append]
+    have : utf8Len ['*', '/'] = 2 := by decide
+    omega
+  have htake := takeBytes_prefix ('/' :: '*' :: body) ['*', '/']
+  rw [← e] at htake
+  have hge : 2 ≤ utf8Len ('/' :: '*' :: body) := by
+    have h1 : Char.utf8Size '/' = 1 := by decide
+    have h2 : Char.utf8Size '*' = 1 := by decide
+    simp [utf8Len, h1, h2]; omega
+  simp only [stripBlock?, hlen]
+  have : ¬ (utf8Len ('/' :: '*' :: body) + 2 < 2 + 2) := by omega
+  simp [this, htake]
+
+/-- What `remove_comment_header` leaves of a terminated block comment `/*body*/` keeps every text
+character of the body. -/
+theorem removeCommentHeader_block_text (body : List Char) :
+    ∃ b', removeCommentHeader? ('/' :: '*' :: (body ++ ['*', '/'])) = some b' ∧
+      ∀ c ∈ body, isText c = true → c ∈ b' := by
+  cases body with
+  | nil => exact ⟨[], by decide, by simp⟩
+  | cons x rest =>
+    by_cases hs : x = '*'
+    · subst hs
+      cases rest with
+      | nil => exact ⟨[], by decide, by intro c hc ht; simp at hc; subst hc; simp [isText] at ht⟩
+      | cons y ys =>
+        by_cases hy : y = '/'
+        · subst hy
+          refine ⟨'*' :: '/' :: ys, ?_, fun c hc _ => hc⟩
+          have := stripBlock2 ('*' :: '/' :: ys)
+          simp [removeCommentHeader?, startsWith] at this ⊢
+          exact this
+        · refine ⟨y :: ys, ?_, ?_⟩
+          · have := stripBlock3 '*' (by decide) (y :: ys)
+            simp [removeCommentHeader?, startsWith, hy] at this ⊢
+            exact this
+          · intro c hc ht
+            rcases List.mem_cons.mp hc with rfl | hc
+            · simp [isText] at ht
+            · exact hc
+    · by_cases he : x = '!'
+      · subst he
+        refine ⟨rest, ?_, ?_⟩
+        · have := stripBlock3 '!' (by decide) rest
+          simp [removeCommentHeader?, startsWith] at this ⊢
+          exact this
+        · intro c hc ht
+          rcases List.mem_cons.mp hc with rfl | hc
+          · simp [isText] at ht
+          · exact hc
+      · refine ⟨x :: rest, ?_, fun c hc _ => hc⟩
+        exact removeCommentHeader_block (x :: rest) (by simp [startsWith, hs]) (by simp [startsWith, he])
+
+theorem removeCommentHeader_line_text (body : List Char) :
+    ∃ b', removeCommentHeader? ('/' :: '/' :: body) = some b' ∧
+      ∀ c ∈ body, isText c = true → c ∈ b' := by
+  cases body with
+  | nil => exact ⟨[], by decide, by simp⟩
+  | cons x rest =>
+    by_cases hs : x = '/'
+    · subst hs
+      exact ⟨rest, by simp [removeCommentHeader?, startsWith], by
+        intro c hc ht
+        rcases List.mem_cons.mp hc with rfl | hc
+        · simp [isText] at ht
+        · exact hc⟩
+    · by_cases he : x = '!'
+      · subst he
+        exact ⟨rest, by simp [removeCommentHeader?, startsWith], by
+          intro c hc ht
+          rcases List.mem_cons.mp hc with rfl | hc
+          · simp [isText] at ht
+          · exact hc⟩
+      · exact ⟨x :: rest, by simp [removeCommentHeader?, startsWith, hs, he], fun c hc _ => hc⟩
+
+
 end RF.Lemmas.Comment
